@@ -53,15 +53,15 @@ def build_scenarios(rnd, pragma, full=True, sample=None):
             c2 = cc.ANode([sub(inner, 2, inner_static, holders1), sub(cc.VNode(1, "np", "fall", None), 6, holders=holders1)] + tail)
             mid = cc.VNode(1, "np", "retbranch", c2)
             c1 = cc.ANode([sub(mid, 5, holders=holders0), sub(cc.VNode(1, "view", "retloop", None), 4, True, holders=holders0)])
-        outer = cc.VNode(0, ko, xo, c1 if ko != "getter" else None)
-        if ko == "getter":
+        outer = cc.VNode(0, ko, xo, c1 if ko not in ("getter", "leaf") else None)
+        if ko in ("getter", "leaf"):
             oracle = {}
         if direct:
             top = outer
         else:
             oracle[1] = (False, "outer call")
             top = cc.ANode([(outer, False, True, False, 1)])
-        key = (ko, "-" if ko == "getter" else (xo, d, ki, xi, inner_static, direct))
+        key = (ko, "-" if ko in ("getter", "leaf") else (xo, d, ki, xi, inner_static, direct))
         if key in seen:
             continue
         seen.add(key)
